@@ -68,7 +68,7 @@ pub mod tokio { pub mod time {
     #[verifier::external_body]
     pub fn sleep(d: Duration, Tracked(w): Tracked<&mut World>)
         requires !old(w).lock_held,
-            dur_ns(d) <= old(w).mpp_timeout_ns,   // #sleep_at_most_one_timeout [C11,C06]
+            dur_ns(d) <= old(w).mpp_timeout_ns,   // #sleep_at_most_one_timeout [C11,C06,C19]
             old(w).fresh_start ==> dur_ns(d) == old(w).mpp_timeout_ns,   // #a_payment_with_no_earlier_attempt_waits_the_whole_timeout [C11,C12]
         ensures rely(World { slept_ns: final(w).slept_ns, ..*old(w) }, *final(w)),
             final(w).slept_ns == dur_ns(d), final(w).now_ns >= old(w).now_ns + dur_ns(d),
